@@ -100,7 +100,7 @@ theorem clean_failures_fall_through (cfg : Cfg) (hg : cfg.guarded = true) (dst :
 first origin: the download fails, no other origin is contacted and nothing more is written. -/
 theorem unseekable_gives_up (cfg : Cfg) (hg : cfg.guarded = true) (dst : Dst) (hp : dst.kind = .plain)
     (k : Nat) (hk0 : 0 < k) (hk : k < cfg.blob.length) (rest : List Resp) (os : List (List Resp)) :
-    download cfg dst (some ((.cut k :: rest) :: os)) =
+    download cfg dst (some ((.cut k false :: rest) :: os)) =
       ({ dst := dst.write (cfg.blob.take k), n := k, trace := [0] }, .unavailable) := by
   have h1 : prepare cfg { dst := dst } = some { dst := dst } := prepare_zero cfg _ rfl
   have h2 := pollFrom_gives_up cfg hg os 1
@@ -108,26 +108,34 @@ theorem unseekable_gives_up (cfg : Cfg) (hg : cfg.guarded = true) (dst : Dst) (h
   simp only [download, pollFrom, pollOrigin, h1, doRequest, request, hk, if_true, hg,
     Nat.zero_add, List.nil_append, h2, mapNotFound]
 
+/-- **C35 (4d)** A streamed (chunked, no Content-Length) response that is dropped is a failure even
+when every body byte had arrived; with a seekable destination the next origin's complete answer
+still leaves exactly one copy (an instance of (1) + (4a) spelled out for the streaming origin). -/
+theorem chunked_drop_is_failure (cfg : Cfg) (hg : cfg.guarded = true) (dst : Dst) (k : Nat) (rest : List Resp) :
+    (download cfg dst (some [.cut k true :: rest])).2 = .unavailable := by
+  have h1 : prepare cfg { dst := dst } = some { dst := dst } := prepare_zero cfg _ rfl
+  simp only [download, pollFrom, pollOrigin, h1, doRequest, request, hg, if_true, mapNotFound]
+
 /-- The request closure without the guard (the code before the repair: every request writes to the
 same destination) does **not** have property (1): a drop after 2 of 5 bytes followed by a healthy
 origin reports success with 7 bytes in the destination. -/
 theorem unguarded_duplicates :
     let cfg : Cfg := { guarded := false, bo := 0, blob := [1, 2, 3, 4, 5] }
     let dst : Dst := { kind := .plain, data := [] }
-    (download cfg dst (some [[.cut 2], [.full]])).2 = .ok ∧
-    (download cfg dst (some [[.cut 2], [.full]])).1.dst.data = [1, 2, 1, 2, 3, 4, 5] := by
+    (download cfg dst (some [[.cut 2 false], [.full false]])).2 = .ok ∧
+    (download cfg dst (some [[.cut 2 false], [.full false]])).1.dst.data = [1, 2, 1, 2, 3, 4, 5] := by
   decide
 
 -- non-vacuity: the same fault script under the repaired closure
 example : (download { blob := [1, 2, 3, 4, 5] } { kind := .seek, data := [9, 9, 9], pos := 1 }
-    (some [[.status 202, .cut 2], [.netErr], [.cut 4], [.status 202, .full]])).2 = .unavailable := by decide
+    (some [[.status 202, .cut 2 false], [.netErr], [.cut 4 true], [.status 202, .full true]])).2 = .unavailable := by decide
 example : (download { bo := 1, blob := [1, 2, 3, 4, 5] } { kind := .seek, data := [9, 9, 9], pos := 1 }
-    (some [[.status 202, .cut 2], [.netErr], [.cut 4], [.status 202, .full]])) =
+    (some [[.status 202, .cut 2 false], [.netErr], [.cut 4 true], [.status 202, .full true]])) =
     ({ dst := { kind := .seek, data := [9, 1, 2, 3, 4, 5], pos := 6 }, n := 5, trace := [0, 0, 1, 2, 3, 3] }, .ok) := by decide
 example : (download { blob := [1, 2, 3, 4, 5] } { kind := .plain, data := [7] }
-    (some [[.cut 2], [.full]])) = ({ dst := { kind := .plain, data := [7, 1, 2] }, n := 2, trace := [0] }, .unavailable) := by decide
+    (some [[.cut 2 false], [.full false]])) = ({ dst := { kind := .plain, data := [7, 1, 2] }, n := 2, trace := [0] }, .unavailable) := by decide
 example : (download { blob := [1, 2, 3, 4, 5] } { kind := .plain, data := [7] }
-    (some [[.status 503], [.cut 0], [.cut 5]])).1.dst.data = [7, 1, 2, 3, 4, 5] := by decide
-example : (download { blob := [1, 2, 3] } { kind := .plain, data := [] } (some [[.status 404], [.full]])).2 = .notFound := by decide
+    (some [[.status 503], [.cut 0 true], [.cut 5 false]])).1.dst.data = [7, 1, 2, 3, 4, 5] := by decide
+example : (download { blob := [1, 2, 3] } { kind := .plain, data := [] } (some [[.status 404], [.full false]])).2 = .notFound := by decide
 
 end KrakenModel.Spec.C35
